@@ -42,6 +42,43 @@ impl MemoryProbe {
                     bad = Some(("receive-unreliable".into(), c.channel_id, c.memory_usage_bytes, c.max_memory_usage_bytes));
                 }
             }
+            // accounting identities: what is accounted is exactly what the channel still holds
+            for c in &s.send_reliable {
+                let held: usize = c.unacked.iter().map(|u| u.len).sum();
+                if c.memory_usage_bytes != held {
+                    return Err(Violation::new(
+                        "C09/accounting-differs-from-held-data/send-reliable",
+                        format!("endpoint {} send-reliable channel {}: {} bytes accounted, unacknowledged messages hold {} ({}, tick {})", e, c.channel_id, c.memory_usage_bytes, held, what, l.tick),
+                    ));
+                }
+            }
+            for c in &s.send_unreliable {
+                let held: usize = c.queued_lens.iter().sum();
+                if c.memory_usage_bytes != held {
+                    return Err(Violation::new(
+                        "C09/accounting-differs-from-held-data/send-unreliable",
+                        format!("endpoint {} send-unreliable channel {}: {} bytes accounted, queued messages hold {} ({}, tick {})", e, c.channel_id, c.memory_usage_bytes, held, what, l.tick),
+                    ));
+                }
+            }
+            for c in &s.receive_reliable {
+                let held: usize = c.buffered.iter().map(|b| b.1).sum::<usize>() + c.partial.iter().map(|p| p.num_slices * 1200).sum::<usize>();
+                if c.memory_usage_bytes != held {
+                    return Err(Violation::new(
+                        "C09/accounting-differs-from-held-data/receive-reliable",
+                        format!("endpoint {} receive-reliable channel {}: {} bytes accounted, buffered messages and partial reassemblies hold {} ({}, tick {})", e, c.channel_id, c.memory_usage_bytes, held, what, l.tick),
+                    ));
+                }
+            }
+            for c in &s.receive_unreliable {
+                let held: usize = c.queued_lens.iter().sum::<usize>() + c.partial.iter().map(|p| p.num_slices * 1200).sum::<usize>();
+                if c.memory_usage_bytes != held {
+                    return Err(Violation::new(
+                        "C09/accounting-differs-from-held-data/receive-unreliable",
+                        format!("endpoint {} receive-unreliable channel {}: {} bytes accounted, queued messages and partial reassemblies hold {} ({}, tick {})", e, c.channel_id, c.memory_usage_bytes, held, what, l.tick),
+                    ));
+                }
+            }
             if let Some((k, ch, used, max)) = bad {
                 return Err(Violation::new(
                     format!("C09/over-budget/{}", k),
@@ -266,6 +303,29 @@ pub fn scenarios(tier: Tier) -> Vec<LinkScenario<fn() -> Box<dyn Probe>>> {
             out.push(LinkScenario { cfg, probe: probe_tight as fn() -> Box<dyn Probe> });
         }
     }
+    // G4: bandwidth-starved tick budget: unreliable messages are dropped at the flush, their bytes must come back
+    for dir in 0..2usize {
+        if tier == Tier::Quick && dir == 1 {
+            continue;
+        }
+        let mut cfg = LinkCfg::base(&format!("bandwidth 2000 B/tick, unreliable 3x1000 + 2x1500 behind a reliable 500 dir{}", dir), chans(20_000), chans(20_000));
+        cfg.bytes_per_tick = 2000;
+        cfg.dt_ms = vec![100];
+        cfg.horizon = 4;
+        cfg.tail = 10;
+        cfg.drains = vec![Drain::End];
+        cfg.fates = vec![Fate::Ok, Fate::Drop, Fate::Dup];
+        cfg.script = vec![
+            Send::at(0, dir, 0, 500),
+            Send::at(0, dir, 2, 1000),
+            Send::at(0, dir, 2, 1000),
+            Send::at(0, dir, 2, 1000),
+            Send::at(2, dir, 2, 1500),
+            Send::at(2, dir, 2, 1500),
+            Send::at(2, dir, 1, 700),
+        ];
+        out.push(LinkScenario { cfg, probe: probe_ample as fn() -> Box<dyn Probe> });
+    }
     // G3: unreliable fragments and the 3 s rule (1 s ticks); lossy baseline: second slice always lost
     for dir in 0..2usize {
         if tier == Tier::Quick && dir == 1 {
@@ -289,7 +349,12 @@ pub fn run(tier: Tier) -> i32 {
     rep.rule("M2: every schedule with <= d deviations over the horizon of each scenario (ample budgets with varying drain timing; 6000-byte budgets with three send cycles and prompt drains; unreliable fragments with 1 s ticks over a lossy baseline) + fault-free tail; oracle after every library call: accounted bytes of every channel of both endpoints within [0, max] (hook; underflow panics under overflow checks); after update: no unreliable reservation older than 3 s; at the quiescent end: zero accounted everywhere and channel_available_memory = configured maximum; tight scenarios: no ReliableChannelMaxMemoryReached disconnect");
     rep.assume("receive-side accounting is read through the snapshot hook; 'within budget' scenarios keep the sum of reservations (ceil(len/1200)*1200) of messages in flight <= budget and drain every tick");
     let sc = scenarios(tier);
-    run_link_scenarios(&mut rep, "m2", &sc, tier.pick(2, 3), tier.pick(120.0, 1500.0));
+    run_link_scenarios(&mut rep, "m2", &sc, tier.pick(3, 4), tier.pick(120.0, 3000.0));
+    if rep.machinery.is_none() {
+        rep.rule("M1 (API soup): every interleaving up to depth D of send / update / flush / deliver / drop / duplicate / receive with <= 3 packets in flight per direction (ordered and unordered channel); accounting within budget after every call, and from every state a probe on a clone ends with zero bytes accounted once everything is delivered, acknowledged and drained");
+        super::soup::run_soup(&mut rep, tier, "soup-ordered", Kind::Ordered, super::soup::O_MEMORY, &["C09/"]);
+        super::soup::run_soup(&mut rep, tier, "soup-unordered", Kind::Unordered, super::soup::O_MEMORY, &["C09/"]);
+    }
     rep.finish()
 }
 
@@ -298,5 +363,10 @@ pub fn replay(j: &J) -> i32 {
         Some("thorough") => Tier::Thorough,
         _ => Tier::Quick,
     };
+    if j.get("kind").and_then(|k| k.as_str()) == Some("trace") {
+        let part = j.get("part").and_then(|p| p.as_str()).unwrap_or("");
+        let kind = if part.starts_with("soup-unordered") { Kind::Unordered } else { Kind::Ordered };
+        return super::soup::replay_soup(j, kind, super::soup::O_MEMORY);
+    }
     replay_link(&scenarios(tier), j)
 }
